@@ -1,0 +1,148 @@
+//! Verification hooks (guarded: `cfg(kani)` or cargo feature `verif`).
+//!
+//! * Kani harnesses: loop-free, full-domain statements of leaf-function
+//!   contracts. They are used to obtain concrete counterexamples for
+//!   obligations the deductive verifier reports, and as the deciding check for
+//!   bit-level encodings.
+//! * Native replay test: re-runs a reported counterexample against the real
+//!   compiled functions (`VERIF_REPLAY=<file> cargo test --features verif verif_replay`).
+//!
+//! Nothing in this file is compiled into the plugin unless the guard is on.
+
+#[cfg(kani)]
+mod kani_harnesses {
+    use crate::messages::{HtlcFailReason, TrampolineRoutingPolicy};
+
+    fn fee_reference(base: u32, ppm: u32, total: u64, amount: u64) -> bool {
+        let rhs: u128 =
+            amount as u128 + base as u128 + (amount as u128 * ppm as u128) / 1_000_000u128;
+        total as u128 >= rhs
+    }
+
+    /// C12: no input panics `fee_sufficient` (overflow checks are on under Kani).
+    #[kani::proof]
+    fn fee_sufficient_no_panic() {
+        let p = TrampolineRoutingPolicy {
+            fee_base_msat: kani::any(),
+            fee_proportional_millionths: kani::any(),
+            cltv_expiry_delta: kani::any(),
+        };
+        let _ = p.fee_sufficient(kani::any(), kani::any());
+    }
+
+    /// C12: exact outside the region of known finding F-C12-a
+    /// (`amount * ppm` does not fit in 64 bits).
+    #[kani::proof]
+    fn fee_sufficient_exact_outside_mul_overflow_region() {
+        let base: u32 = kani::any();
+        let ppm: u32 = kani::any();
+        let total: u64 = kani::any();
+        let amount: u64 = kani::any();
+        kani::assume((amount as u128) * (ppm as u128) <= u64::MAX as u128);
+        let p = TrampolineRoutingPolicy {
+            fee_base_msat: base,
+            fee_proportional_millionths: ppm,
+            cltv_expiry_delta: 0,
+        };
+        let r = p.fee_sufficient(total, amount);
+        assert!(r == fee_reference(base, ppm, total, amount));
+    }
+
+    /// C12 (F-C12-a region): exactness where `amount * ppm` overflows 64 bits.
+    #[kani::proof]
+    fn fee_sufficient_exact_inside_mul_overflow_region() {
+        let base: u32 = kani::any();
+        let ppm: u32 = kani::any();
+        let total: u64 = kani::any();
+        let amount: u64 = kani::any();
+        kani::assume((amount as u128) * (ppm as u128) > u64::MAX as u128);
+        let p = TrampolineRoutingPolicy {
+            fee_base_msat: base,
+            fee_proportional_millionths: ppm,
+            cltv_expiry_delta: 0,
+        };
+        let r = p.fee_sufficient(total, amount);
+        assert!(r == fee_reference(base, ppm, total, amount));
+    }
+
+    /// C12: the fee-or-expiry-insufficient failure is
+    /// 0x201a || be32(base) || be32(ppm) || be16(delta) for every policy.
+    #[kani::proof]
+    fn encode_policy_exact() {
+        let b: u32 = kani::any();
+        let p: u32 = kani::any();
+        let d: u16 = kani::any();
+        let e = HtlcFailReason::TrampolineFeeOrExpiryInsufficient(TrampolineRoutingPolicy {
+            fee_base_msat: b,
+            fee_proportional_millionths: p,
+            cltv_expiry_delta: d,
+        })
+        .encode();
+        assert!(e.len() == 12);
+        assert!(e[0] == 0x20 && e[1] == 26);
+        assert!(u32::from_be_bytes([e[2], e[3], e[4], e[5]]) == b);
+        assert!(u32::from_be_bytes([e[6], e[7], e[8], e[9]]) == p);
+        assert!(u16::from_be_bytes([e[10], e[11]]) == d);
+    }
+
+    /// C12: the two constant failures.
+    #[kani::proof]
+    fn encode_constants_exact() {
+        let a = HtlcFailReason::TemporaryNodeFailure.encode();
+        assert!(a.len() == 2 && a[0] == 0x20 && a[1] == 2);
+        let b = HtlcFailReason::TemporaryTrampolineFailure.encode();
+        assert!(b.len() == 2 && b[0] == 0x20 && b[1] == 25);
+    }
+}
+
+#[cfg(all(test, feature = "verif"))]
+mod replay {
+    use crate::messages::TrampolineRoutingPolicy;
+
+    fn field_u64(v: &serde_json::Value, k: &str) -> u64 {
+        match &v[k] {
+            serde_json::Value::String(s) => s.parse().expect("numeric string"),
+            n => n.as_u64().expect("u64"),
+        }
+    }
+
+    /// Replays a counterexample file against the real functions.
+    /// Passes (exit 0) when the real code agrees with the reference on the
+    /// given input, fails when it reproduces the violation.
+    #[test]
+    fn verif_replay() {
+        let path = match std::env::var("VERIF_REPLAY") {
+            Ok(p) => p,
+            Err(_) => return,
+        };
+        let doc: serde_json::Value =
+            serde_json::from_str(&std::fs::read_to_string(&path).expect("replay file")).unwrap();
+        let inputs = &doc["inputs"];
+        match doc["target"].as_str().unwrap_or("") {
+            "fee_sufficient" => {
+                let base = field_u64(inputs, "base") as u32;
+                let ppm = field_u64(inputs, "ppm") as u32;
+                let total = field_u64(inputs, "total");
+                let amount = field_u64(inputs, "amount");
+                let rhs: u128 =
+                    amount as u128 + base as u128 + (amount as u128 * ppm as u128) / 1_000_000;
+                let expected = total as u128 >= rhs;
+                let p = TrampolineRoutingPolicy {
+                    fee_base_msat: base,
+                    fee_proportional_millionths: ppm,
+                    cltv_expiry_delta: 0,
+                };
+                let observed = std::panic::catch_unwind(|| p.fee_sufficient(total, amount));
+                println!(
+                    "REPLAY fee_sufficient base={} ppm={} total={} amount={} expected={} observed={:?}",
+                    base, ppm, total, amount, expected, observed
+                );
+                match observed {
+                    Ok(o) => assert_eq!(o, expected, "fee_sufficient disagrees with the exact predicate"),
+                    Err(_) => panic!("fee_sufficient panicked"),
+                }
+            }
+            other => panic!("unknown replay target {:?}", other),
+        }
+    }
+}
